@@ -10,6 +10,7 @@ pub mod c16;
 pub mod c17;
 pub mod c18;
 pub mod c19;
+pub mod c20;
 pub mod matchp;
 pub mod meta;
 pub mod model;
@@ -31,6 +32,7 @@ pub fn dispatch(args: &Args, rep: &mut Rep) -> bool {
         "C16" => c16::run(args, rep),
         "C17" => c17::run(args, rep),
         "C18" => c18::run(args, rep),
+        "C20" => c20::run(args, rep),
         "C19" => c19::run(args, rep),
         "C01" => cong::run(args, rep, cong::Focus::Sound),
         "C02" => cong::run(args, rep, cong::Focus::Complete),
